@@ -8,7 +8,7 @@ for d in sorted(glob.glob('/verif/seeded/*-agent')):
 n_missed = sum(1 for r in rows if r[5].startswith('missed'))
 out = ["### 10.1 Independently seeded changes (sub-agents: property text + scratch worktree only)", "",
        "Every change below was confirmed by me in a scratch worktree before it was kept: the pinned suite passes with it (1878 passed), the agent's demonstration fails with it and passes without it. `seeded/<id>/` holds patch.diff, demo.py, notes.md and meta.json (what I ran, first violation reported). `./selftest seeded` re-applies each patch to a copy of /repo's HEAD and expects the property's quick check to exit 1.", "",
-       "%d changes over eight rounds (later rounds were told which ideas were already taken; the fifth and sixth rounds were pointed at the clauses of each property that no earlier change or mutant had touched, the seventh and eighth were free to pick any mechanism not yet used): %d caught by the check as it stood, %d missed at first and caught after the check was strengthened." % (len(rows), len(rows) - n_missed, n_missed), "",
+       "%d changes over nine rounds (later rounds were told which ideas were already taken; the fifth and sixth rounds were pointed at the clauses of each property that no earlier change or mutant had touched, the seventh to ninth were free to pick any mechanism not yet used): %d caught by the check as it stood, %d missed at first and caught after the check was strengthened." % (len(rows), len(rows) - n_missed, n_missed), "",
        "| id | property | change | needs, to manifest | reported by oracle | outcome |", "|---|---|---|---|---|---|"]
 for r in rows:
     out.append("| %s | %s | %s | %s | `%s` | %s |" % r)
